@@ -47,8 +47,8 @@ impl<'a> Gen<'a> {
     pub fn chance(&mut self, num: u64, den: u64) -> bool {
         self.below(den) >= den - num
     }
-    pub fn pick<'b, T>(&mut self, items: &'b [T]) -> &'b T {
-        &items[self.below(items.len() as u64) as usize]
+    pub fn pick<T: Clone>(&mut self, items: &[T]) -> T {
+        items[self.below(items.len() as u64) as usize].clone()
     }
     /// index drawn with the given weights (first entries are the "simple" ones)
     pub fn weighted(&mut self, weights: &[u32]) -> usize {
